@@ -509,3 +509,48 @@ def ob_phases(ctx, num):
         okb = byp is None or bypass_harmless(g, g.node_of(c).id, "active_containers")
         ctx.ob(num, "K3", "the OOM killer runs in every tick (unless no container is active)", okb, f, c,
                detail="on every path" if byp is None else f"bypass: {g.describe_path(byp)}" + ("; only with no active container" if okb else ""))
+
+
+def ob_own_state(ctx, num):
+    """Each pool keeps its own books: the holder lists are bound to a fresh empty list in ResourcePool.__init__ (every pool object gets its
+    own), and the class body binds no object under those names (a class-level `suspended_containers = []` is one list shared by every pool
+    of every executor in the process: a container that left pool 0 shows up in pool 1, and is counted once per pool)."""
+    P = ctx.P
+    init = P.fn(RP, "ResourcePool.__init__", raw=True)
+    ctx.touch(init)
+    cls = P.cls(RP, "ResourcePool")
+    fresh: Dict[str, List[ast.AST]] = {a: [] for a in LISTS}
+
+    def is_fresh(v):
+        return (isinstance(v, ast.List) and not v.elts) or (isinstance(v, ast.Call) and isinstance(v.func, ast.Name) and v.func.id == "list" and not v.args and not v.keywords)
+    for n in own_nodes(init.node):
+        pairs = []
+        if isinstance(n, ast.Assign):
+            for t in n.targets:
+                if isinstance(t, (ast.Tuple, ast.List)) and isinstance(n.value, (ast.Tuple, ast.List)) and len(t.elts) == len(n.value.elts):
+                    pairs += list(zip(t.elts, n.value.elts))
+                else:
+                    pairs.append((t, n.value))
+        elif isinstance(n, ast.AnnAssign) and n.value is not None:
+            pairs.append((n.target, n.value))
+        for t, v in pairs:
+            if isinstance(t, ast.Attribute) and t.attr in LISTS and norm.is_name(t.value, init.params()[0]) and is_fresh(v):
+                fresh[t.attr].append(n)
+    shared = {}
+    for st in cls.node.body:
+        tg = []
+        if isinstance(st, ast.Assign):
+            tg = [(t, st.value) for t in st.targets]
+        elif isinstance(st, ast.AnnAssign) and st.value is not None:
+            tg = [(st.target, st.value)]
+        for t, v in tg:
+            if isinstance(t, ast.Name) and t.id in LISTS:
+                shared[t.id] = st
+    for a in LISTS:
+        ok = len(fresh[a]) >= 1 and a not in shared
+        d = (f"class-level binding `{stmt_text(shared[a])}` (one object shared by all pools)" if a in shared else
+             (f"created per pool: `{stmt_text(fresh[a][0])}`" if fresh[a] else "no `self.%s = []` in ResourcePool.__init__" % a))
+        ctx.ob(num, "K1", f"every pool has its own `{a}` list: bound to a fresh empty list in ResourcePool.__init__, no class-level object of that name",
+               ok, init, fresh[a][0] if fresh[a] else init.node, construct=f"self.{a} = []", detail=d)
+        if a in shared:
+            ctx.obs[-1].line = cls.mod.line(shared[a])
